@@ -5,9 +5,9 @@ package symgo
 
 import (
 	"fmt"
-	"os"
 	"go/types"
 	"hash/fnv"
+	"os"
 	"sort"
 	"strings"
 	"sync"
@@ -54,6 +54,8 @@ type Result struct {
 	Diffs        []DiffQuery
 	IfConverted  int64
 	IfBailed     int64
+	// SolverRetries: paths run a second time because the solver process misbehaved
+	SolverRetries int64
 }
 
 type sampleEntry struct {
@@ -75,6 +77,8 @@ type explorer struct {
 	paths int64
 	res   *Result
 	stop  int32
+
+	solverRetries int64
 }
 
 var epochCounter int32
@@ -159,6 +163,7 @@ func Explore(prog *ssa.Program, fn *ssa.Function, args []int, cfg *Config, opts 
 	wg.Wait()
 	close(stopTick)
 	ex.res.Wall = time.Since(t0)
+	ex.res.SolverRetries = ex.solverRetries
 	sort.Slice(ex.res.Samples, func(a, b int) bool {
 		return hashEvents(opts.Seed, ex.res.Samples[a].Events) < hashEvents(opts.Seed, ex.res.Samples[b].Events)
 	})
@@ -238,6 +243,7 @@ func (ex *explorer) worker(w int) {
 	in := newInterpreter(ex.prog, ex.cfg, opts)
 	in.sym = sym
 	var local [][]event
+	retried := map[string]bool{}
 	var samples []sampleEntry
 	asserts := map[string]int64{}
 	covers := map[string]int64{}
@@ -337,7 +343,18 @@ func (ex *explorer) worker(w int) {
 			}
 			ex.inconclusive("bound exceeded: " + o.why + " [in " + strings.Join(in.stackNames(), " < ") + "] [events " + ev + "]")
 		case solverTrouble:
-			ex.inconclusive("solver: " + o.msg)
+			// a solver process that misbehaves (out of memory, killed, timeout under load) is
+			// replaced and the path is run again once from its prefix before the run is
+			// declared inconclusive
+			key := eventsString(prefix)
+			if !retried[key] {
+				retried[key] = true
+				atomic.AddInt64(&ex.solverRetries, 1)
+				local = append(local, append([]event(nil), prefix...))
+				sym.Paths--
+			} else {
+				ex.inconclusive("solver: " + o.msg)
+			}
 			sym.slv.close()
 			ns := mkSym()
 			ns.Paths, ns.Aborted, ns.Decisions = sym.Paths, sym.Aborted, sym.Decisions
